@@ -12,10 +12,12 @@ import (
 	"pgregory.net/rapid"
 )
 
-// HalfRef names one half of one /io request.
+// HalfRef names one half of one /io request, or (Dir "arrive") the moment a
+// late request arrives: requests without an arrive entry all arrive before
+// the first admission.
 type HalfRef struct {
 	Req int    `json:"req"` // 0-based request index
-	Dir string `json:"dir"` // input | output
+	Dir string `json:"dir"` // input | output | arrive
 }
 
 // C06Case: n simultaneous /io requests on top of a base state, admitted in a
@@ -31,9 +33,29 @@ type C06Case struct {
 func alternates(order []HalfRef) bool {
 	// not of the form AA BB CC ...: somewhere two halves of one request are
 	// separated by a half of another request
-	for i := 0; i+1 < len(order); i += 2 {
-		if order[i].Req != order[i+1].Req {
+	var hs []HalfRef
+	for _, h := range order {
+		if h.Dir != "arrive" {
+			hs = append(hs, h)
+		}
+	}
+	for i := 0; i+1 < len(hs); i += 2 {
+		if hs[i].Req != hs[i+1].Req {
 			return true
+		}
+	}
+	return false
+}
+
+// staggered: some request arrives after another one's half has been admitted.
+func staggered(order []HalfRef) bool {
+	seenHalf := false
+	for _, h := range order {
+		if h.Dir == "arrive" && seenHalf {
+			return true
+		}
+		if h.Dir != "arrive" {
+			seenHalf = true
 		}
 	}
 	return false
@@ -118,16 +140,41 @@ func runC06(c C06Case) (o c06Out) {
 	}
 	reqs := make([]*Attempt, c.N)
 	if gated {
+		late := map[int]bool{}
+		for _, h := range c.Order {
+			if h.Dir == "arrive" {
+				late[h.Req] = true
+			}
+		}
 		for i := range reqs {
-			reqs[i] = newIO(w)
+			if !late[i] {
+				reqs[i] = newIO(w)
+			}
 		}
 		for _, r := range reqs {
-			if !r.WaitAtAdmit("input") || !r.WaitAtAdmit("output") {
+			if r != nil && (!r.WaitAtAdmit("input") || !r.WaitAtAdmit("output")) {
 				return c06Out{key: "HARNESS", what: "an /io half never reached the admit gate"}
 			}
 		}
+		refused := map[int]int{}
 		for _, h := range c.Order {
+			if h.Dir == "arrive" {
+				// requests both of whose halves were refused have returned by
+				// now (waited for below), so what the newcomer sees is determined
+				reqs[h.Req] = newIO(w)
+				if !reqs[h.Req].WaitAtAdmit("input") || !reqs[h.Req].WaitAtAdmit("output") {
+					return c06Out{key: "HARNESS", what: "a late /io half never reached the admit gate"}
+				}
+				o.verdicts = append(o.verdicts, fmt.Sprintf("%d:arrives", h.Req))
+				continue
+			}
 			v := reqs[h.Req].Admit(h.Dir)
+			if v == "refused" {
+				if refused[h.Req]++; refused[h.Req] == 2 && !reqs[h.Req].WaitDone(Wait) {
+					o.key, o.what = "refused-request-did-not-return", fmt.Sprintf("both halves of request %d were refused but its call did not return within %v", h.Req, Wait)
+					return o
+				}
+			}
 			o.verdicts = append(o.verdicts, fmt.Sprintf("%d%s:%s", h.Req, h.Dir[:1], v))
 			if strings.HasPrefix(v, "stuck") {
 				o.key, o.what = "admission-stuck", fmt.Sprintf("half %v neither attached nor returned within %v", h, Wait)
@@ -285,12 +332,15 @@ var c06Bases = []string{"idle", "full", "half-in", "half-out", "teardown"}
 func c06Record(c C06Case, o c06Out) {
 	canon, _ := json.Marshal(c)
 	cl := []string{"base-" + c.Base, fmt.Sprintf("n=%d", c.N)}
+	if staggered(c.Order) {
+		cl = append(cl, "staggered-arrival")
+	}
 	if c.Gated {
 		cl = append(cl, "gated")
 	} else {
 		cl = append(cl, "ungated-race")
 	}
-	nt := !c.Gated || alternates(c.Order)
+	nt := !c.Gated || alternates(c.Order) || staggered(c.Order)
 	cc := coll("C06")
 	cc.Case(string(canon), nt, cl...)
 	if nt && c.Gated && cc.WantSample() {
@@ -341,6 +391,43 @@ func TestC06Orders(t *testing.T) {
 			}
 		}
 	}
+	// staggered arrivals: two requests up front, a third arriving at every
+	// point up to its own first admission; every order of the six halves.
+	// Quick: idle base; thorough: every base.
+	bases := []string{"idle"}
+	if ev.Thorough() {
+		bases = c06Bases
+	}
+	for _, p := range perms(6) {
+		ord := orderFromPerm(p)
+		first := 0
+		for i, h := range ord {
+			if h.Req == 2 {
+				first = i
+				break
+			}
+		}
+		for pos := 1; pos <= first; pos++ { // pos 0 = arriving up front, covered above
+			for _, base := range bases {
+				idx++
+				if idx%ev.Shards() != ev.ShardIndex() {
+					continue
+				}
+				so := append(append(append([]HalfRef{}, ord[:pos]...), HalfRef{Req: 2, Dir: "arrive"}), ord[pos:]...)
+				c := C06Case{N: 3, Base: base, Order: so, Gated: true, OchCap: []int{0, 1, 1024}[idx%3]}
+				o := runC06(c)
+				c06Record(c, o)
+				if o.key == "HARNESS" {
+					cc.Inconclusive(o.what)
+					t.Fatalf("harness problem: %s", o.what)
+				}
+				if o.key != "" {
+					t.Fatal(cc.Violation("TestC06", o.key, o.what, c, o.verdicts))
+				}
+			}
+		}
+	}
+	cc.Note("exhaustive_staggered_third_arrival_n3_bases", bases)
 	cc.Note("exhaustive_orders_n2", true)
 	if ev.Thorough() {
 		cc.Note("exhaustive_orders_n3", true)
@@ -367,6 +454,21 @@ func TestC06Sampled(t *testing.T) {
 				idx[i] = i
 			}
 			c.Order = orderFromPerm(rapid.Permutation(idx).Draw(rt, "order"))
+			// some requests arrive late, anywhere up to their first admission
+			for r := 1; r < c.N; r++ {
+				if rapid.IntRange(0, 2).Draw(rt, "late") != 0 {
+					continue
+				}
+				first := 0
+				for i, h := range c.Order {
+					if h.Req == r && h.Dir != "arrive" {
+						first = i
+						break
+					}
+				}
+				pos := rapid.IntRange(0, first).Draw(rt, "arrivepos")
+				c.Order = append(append(append([]HalfRef{}, c.Order[:pos]...), HalfRef{Req: r, Dir: "arrive"}), c.Order[pos:]...)
+			}
 		}
 		o := runC06(c)
 		c06Record(c, o)
